@@ -56,6 +56,38 @@ LEVELS = {
                    "##@$.*####",
                    "##    ####",
                    W, W, W],
+    # OPEN boards without a wall ring: a box already on the top / left / bottom / right edge of the BOARD with the agent
+    # right behind it, and free cells on the opposite edge (an outward push must be refused, not wrap around)
+    "open_top": ["  $    .  ",
+                 "  @       ",
+                 "          ",
+                 " $     .  ",
+                 "          ",
+                 "   $  .   ",
+                 "          ",
+                 "     $  . ",
+                 "          ",
+                 "          "],
+    "open_left": ["          ",
+                  "       .  ",
+                  "          ",
+                  "          ",
+                  "$@    .   ",
+                  "          ",
+                  "  $  $ .  ",
+                  "          ",
+                  "  $    .  ",
+                  "          "],
+    "open_br": ["          ",
+                "  .    .  ",
+                "          ",
+                "   $      ",
+                "        @$",
+                "  .       ",
+                "      $   ",
+                "  .       ",
+                "          ",
+                "    $     "],
     # one-cell cell: every action is blocked (walls left and right, a box with a wall behind it above,
     # a box with another box behind it below).
     "island": [W,
@@ -197,6 +229,8 @@ class Adapter(EnvAdapter):
                 _c("rooms_sparse_t2", "levels", "sparse", 2, ROOMS, episodes=10, max_steps=5, policies=ALL_POL),
                 _c("rooms_dense_t3", "levels", "dense", 3, ROOMS, episodes=10, max_steps=6, policies=ALL_POL),
                 _c("island_dense_t3", "levels", "dense", 3, ("island",), episodes=2, max_steps=6, policies=["random"]),
+                _c("open_dense_t7", "levels", "dense", 7, ("open_top", "open_left", "open_br"), episodes=12, max_steps=10,
+                   policies=ALL_POL),
             ]
         out = []
         limits = [1, 2, 3, 7, 120, None]
